@@ -179,3 +179,37 @@ planning = Contract(
                           "{plain, save=(p2,), forbid_creation_of=(p1,), time_range} on the real Context with a DataDirectory "
                           "(quick: 3 DAGs x 5 stored subsets; thorough: all 64 DAGs x all 16 subsets)",
                     nontrivial=lambda i: len(i["stored"]) < N))
+
+
+# ---- Context.to_absolute_time_range: seconds since run start -> integer ns ----------------------------------
+def _tatr_native(i):
+    strax = _strax()
+
+    class Ctx(strax.Context):
+        def estimate_run_start_and_end(self, run_id, targets=None):
+            return i["t0"], float("inf")
+    st = Ctx()
+    return st.to_absolute_time_range("0", seconds_range=tuple(i["seconds_range"]))
+
+
+def _tatr_ens(S, a, r):
+    want = tuple(a.t0 + int(1_000_000_000 * s) for s in a.seconds_range)     # exact integer arithmetic
+    return [("the range is the run start plus the whole number of ns in each bound (exact integers, no float rounding)",
+             tuple(int(x) for x in r) == want and all(isinstance(x, int) for x in r))]
+
+
+def _tatr_gen(rng, tier):
+    t0s = [0, 10 ** 9, 1_600_000_000 * 10 ** 9, 1_700_000_001 * 10 ** 9, 2 ** 62]
+    secs = [0.0, 0.5, 1.25, 3.0, 10.000000001, 1234.5, 0.000000001]
+    for t0 in t0s:
+        for s0 in secs:
+            for s1 in secs:
+                if s1 >= s0:
+                    yield dict(t0=t0, seconds_range=[s0, s1])
+
+
+to_absolute_time_range = Contract(
+    F, "Context.to_absolute_time_range", params=dict(t0="int", seconds_range="V"), ensures=_tatr_ens, raises={},
+    harness=Harness(native=_tatr_native, gen=_tatr_gen,
+                    scope="run starts {0, 1 s, two real epoch times (1.6e18, 1.7e18 ns), 2^62} x second bounds with exact binary fractions",
+                    nontrivial=lambda i: i["t0"] > 2 ** 53))
